@@ -1,3 +1,5 @@
+import NrDaemon.Props.Reviewed
+import NrDaemon.Gen.Skeleton
 import NrDaemon.Gen.Schema
 import NrDaemon.Gen.Limits
 /-!
@@ -93,3 +95,9 @@ theorem C15_shared_limits :
     cDefines.contains ("NR_MAX_LOG_EVENTS_MAX_SAMPLES_STORED", Gen.Limits.MaxLogMaxEvents) = true ∧
     cDefines.contains ("NR_MAX_ERRORS", Gen.Limits.MaxErrors) = true ∧
     cDefines.contains ("NR_APP_LIMIT", Gen.Limits.AppLimit) = true := by decide
+
+
+/-! ## Ties to the current source: the functions transcribed by the model have not changed since they were reviewed (`Props/Reviewed.lean`) -/
+
+/-- **C15 (tie).**  `aggregateMetrics`: each metric of the vector is decoded with its own forced and scoped flags. -/
+theorem C15_aggregate_metrics_source_tied : Gen.Skeleton.aggregateMetrics = Reviewed.aggregateMetrics := rfl
